@@ -319,8 +319,12 @@ class StubsStringGenerator:
         superclass_info = ""
         superclass_methods_text = ""
         superclass_names = []
-        if superclasses and not class_.is_abstract:
+        if superclasses:
             for superclass in superclasses:
+                if superclass == "abc.ABC":
+                    # Safe-DS has no abstract classes, the marker class is left out; the other superclasses still count
+                    continue
+
                 superclass_name = superclass.split(".")[-1]
                 is_internal_superclass = is_internal(superclass_name)
 
